@@ -69,6 +69,32 @@ RegisterExclusive(R, g, t, p) ==
                           !.groups = Put(@, g, (IF g \in DOMAIN @ THEN @[g] ELSE {}) \cup {R.nextId})],
         ret |-> Ok(R.nextId)]
 
+\* insert_explicit (private; reached through SeedSnapshot::from_seed_specs on a fresh registry): the caller names the
+\* identifier; a taken identifier is refused, the counter moves past the largest identifier seen
+InsertExplicit(R, id, t, p, kind) ==
+  IF ~Valid(p) THEN Same(R, Err("InvalidProbability"))
+  ELSE IF id \in DOMAIN R.records THEN Same(R, ErrId("DuplicateSeedId", id))
+  ELSE [reg |-> [R EXCEPT !.nextId = IF @ > id + 1 THEN @ ELSE id + 1,
+                          !.records = Put(@, id, [triple |-> t, p |-> p, kind |-> kind, ev |-> NoEv]),
+                          !.groups = IF kind >= 0 THEN Put(@, kind, (IF kind \in DOMAIN @ THEN @[kind] ELSE {}) \cup {id}) ELSE @],
+        ret |-> Ok(id)]
+
+\* SeedSnapshot::from_seed_specs: the items (an Independent spec, or the choices of an ExclusiveGroup spec in order)
+\* are inserted one by one into a fresh registry; the first refusal is the result
+RECURSIVE InsertAll(_, _)
+InsertAll(R, items) ==
+  IF items = <<>> THEN [reg |-> R, ret |-> Ok(0)]
+  ELSE LET o == InsertExplicit(R, items[1].id, items[1].tr, items[1].p, items[1].kind) IN
+       IF o.ret.ok THEN InsertAll(o.reg, Tail(items)) ELSE [reg |-> R, ret |-> o.ret]
+FromSeedSpecs(items) == InsertAll(EmptyReg, items)
+
+\* SeedSnapshot::from_probability_seeds: static registration in the order of the triples
+RECURSIVE StaticAll(_, _)
+StaticAll(R, items) ==
+  IF items = <<>> THEN [reg |-> R, ret |-> Ok(0)]
+  ELSE LET o == RegisterStatic(R, items[1].tr, items[1].p) IN
+       IF o.ret.ok THEN StaticAll(o.reg, Tail(items)) ELSE [reg |-> R, ret |-> o.ret]
+
 \* ---- snapshots: the set of identifiers a snapshot holds
 MinOf(S) == CHOOSE x \in S : \A y \in S : x <= y
 Expand(R, ids) ==
@@ -126,8 +152,9 @@ Apply(o) == reg' = o.reg /\ ret' = o.ret
 Occ   == \E k \in Keys, t \in Triples, p \in Probs : Apply(RegisterOccurrence(reg, k, t, p))
 Stat  == \E t \in Triples, p \in Probs : Apply(RegisterStatic(reg, t, p))
 Excl  == \E g \in Groups, t \in Triples, p \in Probs : Apply(RegisterExclusive(reg, g, t, p))
+Expl  == \E id \in 0..MaxId, k \in Groups \cup {-1}, t \in Triples, p \in Probs : Apply(InsertExplicit(reg, id, t, p, k))
 Snap  == \E ids \in SUBSET (0..MaxId + 1) : ret' = SnapshotForIds(reg, ids).ret /\ UNCHANGED reg
-Next  == Occ \/ Stat \/ Excl \/ Snap
+Next  == Occ \/ Stat \/ Excl \/ Expl \/ Snap
 Spec  == Init /\ [][Next]_vars
 
 Inv          == RegOK(reg) /\ SnapshotsClosed(reg)
